@@ -108,6 +108,12 @@ func (h *AnnouncePingHandler) Handle(w *mgr.WorkerCtx, f frame.Frame, hdr *PingH
 		return errors.New("announce ping requires recv link for handling")
 	}
 
+	// Ignore announcements that arrived on a link that is not registered
+	// (anymore): a route learned from them would have no live next hop.
+	if h.r.instance.Peering().GetLink(recvLink.Peer()) != recvLink {
+		return errors.New("announce ping received on a link that is not registered")
+	}
+
 	// Parse announement ping, including appendix data.
 	msg, hops, err := h.parseAnnouncePing(f, data)
 	if err != nil {
